@@ -1120,9 +1120,11 @@ theorem handlePubrec_pres (e : Engine) (a : Ack) : Pres e (e.handlePubrec a).1 :
         rw [hp] at hbranch
         split
         · split
-          · apply completeSuccess_pres
-            intro o' ho' _
-            rw [ho] at ho'; cases ho'; rw [hp]; rfl
+          · split
+            · exact Pres.refl _
+            · apply completeSuccess_pres
+              intro o' ho' _
+              rw [ho] at ho'; cases ho'; rw [hp]; rfl
           · exact hbranch
         · exact Pres.refl _
 
@@ -1153,9 +1155,11 @@ theorem handlePubcomp_pres (e : Engine) (a : Ack) : Pres e (e.handlePubcomp a).1
         cases hp : o.packet <;> simp only [] <;> try exact Pres.refl _
         split
         · split
-          · apply completeSuccess_pres
-            intro o' ho' _
-            rw [ho] at ho'; cases ho'; rw [hp]; rfl
+          · split
+            · exact Pres.refl _
+            · apply completeSuccess_pres
+              intro o' ho' _
+              rw [ho] at ho'; cases ho'; rw [hp]; rfl
           · exact Pres.refl _
         · exact Pres.refl _
 
@@ -1491,58 +1495,41 @@ theorem processAckTimeouts_pres : ∀ (fuel : Nat) (e : Engine), Pres e (Engine.
         exact h2.trans (ih e2)
       · exact Pres.refl _
 
-theorem service_pres (e : Engine) (cap prefill : Nat) : Pres e (e.service cap prefill).1 := by
-  unfold Engine.service
-  have key : ∀ x : Engine × Res, Pres e x.1 →
-      Pres e (match x.2 with
-        | .ok => (x.1, x.2)
-        | .panic _ => (x.1, x.2)
-        | .err _ => ({ x.1 with state := .halted }, x.2)).1 := by
-    intro x hx
-    split
-    · exact hx
-    · exact hx
-    · exact hx.halt
-  have hmain : Pres e (match e.state with
-      | .disconnected => (e, Res.ok)
-      | .pendingConnack =>
-        (match e.connackDeadline with
-         | none => (e, .panic "unwrap_connack_timeout@service_pending_connack")
-         | some d =>
-           if e.now ≥ d then (e, .err "ConnectionEstablishmentFailure")
-           else e.serviceQueue false cap prefill)
-      | .connected =>
-        let (ea, ra) := e.serviceKeepAlive
-        if !ra.isOk then (ea, ra)
-        else
-          let (eb, rb) := ea.serviceQueue true cap prefill
-          if !rb.isOk then (eb, rb)
-          else Engine.processAckTimeouts (eb.timeouts.length + 1) eb
-      | .pendingDisconnect => Engine.processAckTimeouts (e.timeouts.length + 1) e
-      | .halted => (e, .err "InternalStateError")).1 := by
-    split
+theorem serviceCore_pres (e : Engine) (cap prefill : Nat) : Pres e (e.serviceCore cap prefill).1 := by
+  unfold Engine.serviceCore
+  split
+  · exact Pres.refl _
+  · split
     · exact Pres.refl _
     · split
       · exact Pres.refl _
-      · split
-        · exact Pres.refl _
-        · exact serviceQueue_pres _ _ _ _
-    · have ha := serviceKeepAlive_pres e
-      generalize e.serviceKeepAlive = x at ha ⊢
-      obtain ⟨ea, ra⟩ := x
-      simp only [] at ha ⊢
+      · exact serviceQueue_pres _ _ _ _
+  · have ha := serviceKeepAlive_pres e
+    generalize e.serviceKeepAlive = x at ha ⊢
+    obtain ⟨ea, ra⟩ := x
+    simp only [] at ha ⊢
+    split
+    · exact ha
+    · have hb := ha.trans (serviceQueue_pres ea true cap prefill)
+      generalize ea.serviceQueue true cap prefill = y at hb ⊢
+      obtain ⟨eb, rb⟩ := y
+      simp only [] at hb ⊢
       split
-      · exact ha
-      · have hb := ha.trans (serviceQueue_pres ea true cap prefill)
-        generalize ea.serviceQueue true cap prefill = y at hb ⊢
-        obtain ⟨eb, rb⟩ := y
-        simp only [] at hb ⊢
-        split
-        · exact hb
-        · exact hb.trans (processAckTimeouts_pres _ _)
-    · exact processAckTimeouts_pres _ _
-    · exact Pres.refl _
-  exact key _ hmain
+      · exact hb
+      · exact hb.trans (processAckTimeouts_pres _ _)
+  · exact processAckTimeouts_pres _ _
+  · exact Pres.refl _
+
+theorem service_pres (e : Engine) (cap prefill : Nat) : Pres e (e.service cap prefill).1 := by
+  unfold Engine.service
+  have h := serviceCore_pres e cap prefill
+  generalize e.serviceCore cap prefill = x at h ⊢
+  obtain ⟨e1, r⟩ := x
+  simp only [] at h ⊢
+  split
+  · exact h
+  · exact h
+  · exact h.halt
 
 /-! ### reset -/
 
